@@ -67,3 +67,45 @@ def replay_simulated(chk: Check, cfg: str, clauses: Set[str], num: int, depth: i
       else:
         chk.count('out_of_scope_divergence:' + d['act'][0] + ':' + clause)
   return hits
+
+
+def replay_file(chk: Check, path: str, clauses: Set[str], in_scope=None) -> None:
+  """./check Cxx --replay FILE: re-runs the recorded history (TLC recomputes the expected states)."""
+  import json, re  # pylint: disable=import-outside-toplevel
+  rec = json.loads(open(path).read())
+  det = rec['detail']
+  hist = det['history']
+  cfg_text = (tlc.SPECS / det['cfg']).read_text()
+  cfg_text = re.sub(r'SPECIFICATION\s+\w+', 'SPECIFICATION SpecScript', cfg_text)
+  cfg_text = re.sub(r'SimK = \d+', 'SimK = 0', cfg_text)
+  cfg_text = re.sub(r'^(INVARIANT|PROPERTY|CONSTRAINT|VIEW).*$', '', cfg_text, flags=re.M)
+  d = tlc.workdir('replay-script')
+  (d / 'script.json').write_text(json.dumps(hist))
+  (d / 'replay.cfg').write_text(cfg_text)
+  behaviours, r = tlc.simulate('SymTree', str(d / 'replay.cfg'), num=1, depth=len(hist) + 1, seed=1,
+                               name='replay-script-run', env={'SCRIPT_FILE': str(d / 'script.json')}, timeout=3000)
+  chk.add_tlc(r, count_states=False)
+  chk.states += 1
+  chk.transitions += max(1, r.generated)
+  chk.require(len(behaviours) == 1 and len(behaviours[0]) == len(hist) + 1,
+              f'the specification does not admit the recorded history (got {len(behaviours[0]) - 1 if behaviours else 0} '
+              f'of {len(hist)} steps)')
+  rp = symtree.Replayer(clauses)
+  dv = rp.replay(behaviours[0])
+  chk.traces += 1
+  chk.evaluations += len(hist)
+  chk.distinct_case(hist)
+  chk.distinct_case('replay')
+  chk.sample({'replayed_history': hist})
+  if dv is None:
+    print('replay: the history conforms on this tree')
+    return
+  dv['history'] = hist[:dv['step']]
+  claimed = dv['clause'] in clauses or dv['clause'] in ('bind', 'oneplace', 'hang')
+  if claimed and in_scope is not None and dv['clause'] != 'hang':
+    claimed = in_scope(dv)
+  if claimed:
+    chk.violation({'action': dv['act'][0], 'clause': dv['clause']},
+                  {'cfg': det['cfg'], 'step': dv['step'], 'act': dv['act'], 'what': dv['detail'], 'history': hist[:dv['step']]})
+  else:
+    print(f'replay: divergence outside this property: {dv["act"]} {dv["clause"]} {dv["detail"]}')
